@@ -34,7 +34,7 @@ MASKS = {
     "utfrm": dict(objfluents=True),
     "btrm": dict(bounded=True),
     "sirm": dict(invariants=True),
-    "tcrm": dict(invariants=False, traj=True, numeric=False, objfluents=False, static_guards=0.3),
+    "tcrm": dict(invariants=False, traj=True, numeric=False, objfluents=False, static_guards=0.3, bool_expr_assign=0.03),
     "uinrm": dict(undefined=True, numeric=True),
 }
 
@@ -307,6 +307,8 @@ def problem_features(P):
         bassign = [e["f"]["name"] for e in effs if e["kind"] == "assign" and ftype[e["f"]["name"]] == "bool"]
         if len(bassign) != len(set(bassign)):
             fs.add("aad")  # several assignments to one Boolean fluent in one action (add-after-delete)
+        if any(e["kind"] == "assign" and ftype[e["f"]["name"]] == "bool" and e["v"]["op"] != "const" for e in effs):
+            fs.add("boolexprassign")  # a Boolean fluent is assigned a non-constant value
         oassign = [e["f"]["name"] for e in effs if e["kind"] == "assign" and ftype[e["f"]["name"]] == "user"]
         if len(oassign) != len(set(oassign)):
             fs.add("objmultiassign")  # several assignments to one object-valued fluent (possibly the same ground fluent) in one action
@@ -377,7 +379,7 @@ def quantified_connective(P):
     return any(visit(e) for e in es)
 
 
-RELEVANT = {"ncrm": ["aad"], "dcrm": ["constatom", "disjcondinc"], "cerm": ["multicondassign"], "utfrm": ["objmultiassign"]}
+RELEVANT = {"ncrm": ["aad"], "dcrm": ["constatom", "disjcondinc"], "cerm": ["multicondassign"], "utfrm": ["objmultiassign"], "tcrm": ["boolexprassign"]}
 
 
 def signature(comp, clause, P):
